@@ -254,7 +254,8 @@ func (r *Reader) initFields() error {
 			r.m[ent.Name] = ent
 		}
 		if ent.Type == "reg" && ent.ChunkSize > 0 && ent.ChunkSize < ent.Size {
-			r.chunks[ent.Name] = make([]*TOCEntry, 0, ent.Size/ent.ChunkSize+1)
+			// Do not preallocate: Size/ChunkSize comes from the untrusted TOC.
+			r.chunks[ent.Name] = make([]*TOCEntry, 0)
 			r.chunks[ent.Name] = append(r.chunks[ent.Name], ent)
 		}
 		if ent.ChunkSize == 0 && ent.Size != 0 {
